@@ -170,8 +170,38 @@ class Flow:
         o.fall = self._each(lambda s: self.transfer(st, s), states)
         return o
 
+    def for_const_element(self, node: ast.For, elt: ast.AST) -> None:
+        """Called before each unrolled iteration of `for x in (<literals>)`."""
+
+    def _unrolled_for(self, st, states: set) -> Outcome:
+        # `for x in (a, b, c)`: the body runs exactly once per element, in order
+        o = Outcome()
+        cur = self._each(lambda s: self.for_iter(st, s), states)
+        broke: set = set()
+        for elt in st.iter.elts:
+            if not cur:
+                break
+            self.for_const_element(st, elt)
+            t = self._each(lambda s: self.for_target(st, s), cur)
+            ob = self.run_block(st.body, t)
+            o.ret.extend(ob.ret)
+            o.rais.extend(ob.rais)
+            broke |= ob.brk
+            cur = ob.fall | {s for _, s in ob.cont}
+        self.for_const_element(st, None)
+        after = cur
+        if st.orelse:
+            oe = self.run_block(st.orelse, after)
+            o.absorb_exits(oe)
+            after = oe.fall
+        o.fall = after | broke
+        return o
+
     def _loop(self, st, states: set, is_for: bool) -> Outcome:
         o = Outcome()
+        if is_for and isinstance(st.iter, (ast.Tuple, ast.List)) and 0 < len(st.iter.elts) <= 8 \
+                and not any(isinstance(e, ast.Starred) for e in st.iter.elts):
+            return self._unrolled_for(st, states)
         if is_for:
             states = self._each(lambda s: self.for_iter(st, s), states)
         entry = set(states)
